@@ -347,7 +347,9 @@ func eqList(a, b []string) bool {
 	return true
 }
 
-func hasPrefixList(a, prefix []string) bool { return len(a) >= len(prefix) && eqList(a[:len(prefix)], prefix) }
+func hasPrefixList(a, prefix []string) bool {
+	return len(a) >= len(prefix) && eqList(a[:len(prefix)], prefix)
+}
 
 // loopAt returns 0 when no Via entry names this instance, 1 when one on the first line does, 2 for a later line.
 func loopAt(via []string, id identity) int {
@@ -1658,11 +1660,6 @@ func proxySpaces(tier string) []space {
 		mkSpace("proxy req/Conn{none,x-foo}*Via{none,two lines,self later}*XFF*XFProto*XFHost*XFUrl*CL{none,5}", "req", reqXF),
 		mkSpace("proxy res/Conn*XFoo{0,2}*XBar*Fixed{none,all}*Via{none,one,two lines,self}*XFF{none,two lines}*CL{none,5}*TE{none,chunked}", "res", resSet),
 	}
-}
-
-type proxyCaseRef struct {
-	space int
-	idx   int64
 }
 
 type workerOut struct {
